@@ -47,6 +47,20 @@ def cases(tier, seed):
                     c["name"] = "lane%d-%s-%d%s" % (lane, cls, k, "" if sub is None else "-l" + "".join(map(str, sub)))
                     c["cost"] = lane * (3 if cls in ("single", "double-in-lane") else 1)
                     out.append(c)
+    # the ECC port in front of a port of the real crossbar + controller + reference DRAM (faults flipped in the DRAM model)
+    core = [(8, "single", [0, 1]), (8, "double-in-lane", None), (8, "byte-enables", None), (16, "single", [5]), (8, "clean-and-disabled", None),
+            (16, "double-across-lanes", None)]
+    if tier != "quick":
+        core += [(8, "single", [2, 3]), (8, "single", [4, 5]), (8, "single", [6, 7]), (16, "double-in-lane", None), (16, "byte-enables", None),
+                 (32, "single", [seed % 8]), (32, "double-in-lane", None)] + [(16, "single", [ln]) for ln in range(8) if ln != 5]
+    for k, (lane, cls, sub) in enumerate(core):
+        if cls not in CLASSES:
+            continue
+        c = dict(core=True, lane=lane, cls=cls, rep=0, seed="C15/%d/core/%d" % (seed, k), lanes_subset=sub, npairs=40, cmd_ready_prob=1.0,
+                 extra_lat=(0, 0), cmd_buffer_depth=[4, 8, 16][k % 3], refresh=(k % 4 != 3))
+        c["name"] = "core-lane%d-%s%s" % (lane, cls, "" if sub is None else "-l" + "".join(map(str, sub)))
+        c["cost"] = lane * 12
+        out.append(c)
     return out
 
 
@@ -76,9 +90,21 @@ def run_case(c):
             self.port_to = LiteDRAMNativePort("both", aw, stored_dw)
             self.submodules.ecc = LiteDRAMNativePortECC(self.port_from, self.port_to, burst_cycles=BC, with_we_error_detection=True)
 
-    dut = DUT()
-    store = Store(stored_dw // 8, pattern=lambda a, nb: bytes(nb))
-    stub = CoreStub([dut.port_to], store, r, cmd_ready_prob=c["cmd_ready_prob"], extra_lat=tuple(c["extra_lat"]))
+    if c.get("core"):
+        from ..corebackend import CoreBackend
+        stub = CoreBackend(1, databits=stored_dw, refresh=c["refresh"], cmd_buffer_depth=c["cmd_buffer_depth"],
+                           init_fn=lambda rank, bank, row, col, nb: bytes(nb))
+        dut = stub.dut
+        dut.port_from = LiteDRAMNativePort("both", stub.ports[0].address_width, user_dw)
+        dut.port_to = stub.ports[0]
+        dut.submodules.ecc = LiteDRAMNativePortECC(dut.port_from, dut.port_to, burst_cycles=BC, with_we_error_detection=True)
+        store = stub.store
+        mem_procs = stub.processes()
+    else:
+        dut = DUT()
+        store = Store(stored_dw // 8, pattern=lambda a, nb: bytes(nb))
+        stub = CoreStub([dut.port_to], store, r, cmd_ready_prob=c["cmd_ready_prob"], extra_lat=tuple(c["extra_lat"]))
+        mem_procs = [stub.process()]
     ecc = dut.ecc
     port = dut.port_from
     full_we = (1 << (user_dw // 8)) - 1
@@ -243,10 +269,10 @@ def run_case(c):
                     res["v"].append(dict(w_, problem="decoder disabled but errors were counted"))
         state["done"] = True
 
-    cycles, reason = run_sim(dut, [stub.process(), main()], lambda: state["done"], 400000, wall_limit=2400)
+    cycles, reason = run_sim(dut, mem_procs + [main()], lambda: state["done"], 400000, wall_limit=2400)
     if reason == "wall":
         return dict(verdict="inconclusive", why="wall-clock watchdog", violations=[], stats={}, nontrivial=False, signature="")
-    v = res["v"] + list(stub.events)
+    v = res["v"] + list(stub.events) + (stub.dfi_events() if c.get("core") else [])
     if reason == "cycle-cap":
         v.append(dict(kind="no-progress"))
     # the only tolerated "not counted" single flips: one position per lane, the same in every lane
